@@ -12,6 +12,7 @@ pub mod c14_params;
 pub mod c15_keyset;
 pub mod c16_reassembler;
 pub mod c16_sets;
+pub mod fuzz_entry;
 
 use vcore::Property;
 
